@@ -191,7 +191,8 @@ def generate(rng, tier, idx):
                 if rng.random() < 0.4:
                     # earlier calls on the SAME loader (what `gemato verify` does before verifying: find_timestamp;
                     # or lookups of other paths) must not let unverified Manifests in
-                    pr['pre'] = rng.sample(['find_timestamp', 'find_timestamp', 'lookup:' + rng.choice(plist), 'dist:' + dirs[rng.randrange(len(dirs))]],
+                    pr['pre'] = rng.sample(['find_timestamp', 'find_timestamp', 'lookup:' + rng.choice(plist), 'dist:' + dirs[rng.randrange(len(dirs))],
+                                            'dirlm:' + dirs[rng.randrange(len(dirs))], 'dirlm:'],
                                            rng.choice([1, 1, 2]))
                 probes.append(pr)
     for d in dirs[1:]:
@@ -281,6 +282,10 @@ def execute(sc):
                                 m.find_path_entry(pre[7:])
                             elif pre.startswith('dist:'):
                                 m.find_dist_entry('dist-0.tar', pre[5:])
+                            elif pre.startswith('dirlm:'):
+                                # an incremental directory check (files not newer than last_mtime keep their size-only
+                                # check) earlier on this loader
+                                m.assert_directory_verifies(pre[6:], last_mtime=2.0**33)
                         except Exception:
                             pass
                     if op.get('pre'):
